@@ -38,13 +38,23 @@ func runScenario(sc Scenario, rng *hlib.Rng, maxOps int) partial {
 	v := &view{status: map[int]int{}, clClose: map[int]bool{}}
 	var done []Op
 	if sc.Ops != nil {
-		for _, op := range sc.Ops {
-			if e.dead {
+		for try := 0; ; try++ {
+			for _, op := range sc.Ops {
+				if e.dead {
+					break
+				}
+				if e.do(op, v) {
+					done = append(done, op)
+				}
+			}
+			if !e.retry || try >= 8 {
 				break
 			}
-			if e.do(op, v) {
-				done = append(done, op)
-			}
+			// the race op ended in an interleaving the scripted format cannot express: once more
+			e.cleanup()
+			e = newExec(sc)
+			v = &view{status: map[int]int{}, clClose: map[int]bool{}}
+			done = nil
 		}
 	} else {
 		g := newGen(sc, rng)
@@ -74,7 +84,11 @@ func finalize(p partial) result {
 	if h == 0 {
 		h, l = 64, 40960
 	}
-	term := hlib.App("Scripted", hlib.App("mkCaps", n64(h), n64(l), n64(recvCap)), hlib.List(e.terms), hlib.List(st))
+	npre := 0
+	if sc.Hcap > 0 {
+		npre = sc.NTopics
+	}
+	term := hlib.App("Scripted", hlib.App("mkCaps", n64(h), n64(l), n64(recvCap)), n64(npre), hlib.List(e.terms), hlib.List(st))
 	sc.Ops = p.done
 	e.impl = append(e.impl, fmt.Sprintf("still blocked: %v", still))
 	e.cleanup()
@@ -93,7 +107,9 @@ func runAll(jobs []func() partial) []result {
 	}
 	var lates []late
 	for i := range jobs {
+		t0 := time.Now()
 		p := jobs[i]()
+		kindTime[p.sc.Kind] += time.Since(t0)
 		if p.needsWait() {
 			lates = append(lates, late{i, p, time.Now()})
 		} else {
@@ -108,6 +124,8 @@ func runAll(jobs []func() partial) []result {
 	}
 	return out
 }
+
+var kindTime = map[string]time.Duration{}
 
 func main() {
 	o := hlib.ParseFlags()
@@ -162,8 +180,23 @@ func main() {
 			add(sc, r, maxOps)
 		}
 	}
-	mk("disciplined", nGuard+nUnres) // no open finding: every spec failure is a violation
+	mk("disciplined", nGuard+nUnres) // inside every guard: every spec failure is a violation
 	mk("undisciplined", nUndis)
+	// streams of the extension; each may meet one open finding (its signature gives the code)
+	nExt := 30
+	if o.Thorough() {
+		nExt = 500
+	}
+	mkx := func(kind string, n, ntopics int) {
+		for i := 0; i < n; i++ {
+			r := rng.Fork()
+			sc := Scenario{Kind: kind, Hcap: r.Range(1, 3), Lcap: r.Range(1, 4), NTopics: ntopics, NClients: r.Range(2, 3)}
+			add(sc, r, r.Range(10, 32))
+		}
+	}
+	mkx("multisub", nExt, 2) // one client subscribed to two topics (finding 3)
+	mkx("raw", nExt, 1)      // sentinel look-alikes among the requests (finding 5)
+	mkx("overlap", nExt, 1)  // Close called again while a Close of the same client waits (finding 4)
 
 	// one scenario after the other: "at rest" is judged from the states of all goroutines
 	results := runAll(jobs)
@@ -174,6 +207,14 @@ func main() {
 	if o.Thorough() {
 		nconc = 400
 	}
+	t0 := time.Now()
 	runConcurrent(out, rng.Fork(), nconc, nil)
-	fmt.Printf("hC36: %d cases\n", out.Count())
+	kindTime["concurrent"] = time.Since(t0)
+	fmt.Printf("hC36: %d cases; seconds per stream:", out.Count())
+	for k, d := range kindTime {
+		if d > 500*time.Millisecond {
+			fmt.Printf(" %s=%.1f", k, d.Seconds())
+		}
+	}
+	fmt.Println()
 }
